@@ -45,7 +45,7 @@ func IsLikelyQuicInitialPacket(buf []byte) bool {
 	if ((protectedFlag >> QuicFlag_HeaderForm) & 0b1) != QuicFlag_HeaderForm_LongHeader {
 		return false
 	}
-	if ((protectedFlag >> QuicFlag_LongPacketType) & 0b11) != QuicFlag_LongPacketType_Initial {
+	if ((protectedFlag >> QuicFlag_LongPacketType) & 0b11) != quicInitialTypeBits(buf) {
 		return false
 	}
 
@@ -54,6 +54,16 @@ func IsLikelyQuicInitialPacket(buf []byte) bool {
 	// QUIC Initial packets for sniffing purposes.
 
 	return true
+}
+
+// quicInitialTypeBits returns the long-header packet type bits of an Initial
+// packet for the version carried in buf: RFC 9369 section 3.2 renumbers the
+// types for QUIC v2 (Initial = 0b01).
+func quicInitialTypeBits(buf []byte) byte {
+	if len(buf) >= 5 && buf[1] == 0x6b && buf[2] == 0x33 && buf[3] == 0x43 && buf[4] == 0xcf {
+		return 0b01
+	}
+	return QuicFlag_LongPacketType_Initial
 }
 
 func (s *Sniffer) SniffQuic() (d string, err error) {
@@ -111,7 +121,7 @@ func sniffQuicBlock(s *Sniffer, cryptos []*quicutils.CryptoFrameOffset, buf []by
 	if ((protectedFlag >> QuicFlag_HeaderForm) & 0b11) != QuicFlag_HeaderForm_LongHeader {
 		return cryptos, nil, ErrNotApplicable
 	}
-	if ((protectedFlag >> QuicFlag_LongPacketType) & 0b11) != QuicFlag_LongPacketType_Initial {
+	if ((protectedFlag >> QuicFlag_LongPacketType) & 0b11) != quicInitialTypeBits(buf) {
 		return cryptos, nil, ErrNotApplicable
 	}
 
